@@ -74,7 +74,12 @@ def call2(C, Angle, name, args):
     return v, enc(v)
 
 
-def tie(ctx, name, args, out, klass=None):
+def tie(ctx, name, args, out, klass=None, raw=False):
+    """One correspondence case. The implementation receives `Angle(a)`; the model receives the degree value that
+    Angle stores (identical for |a| < 360; `Angle(360.0)` stores 0.0)."""
+    if not raw:
+        Angle, _ = _mods()
+        args = [Angle(float(a))() for a in args]
     ctx.case(name, [float(a) for a in args], out, q=None, klass=klass or name)
 
 
@@ -249,7 +254,7 @@ def special_dir(rng, pair, direction, par):
     if r < 0.85:
         return rng.choice(SEAM), S.uniform_dir(rng)[1], 'seam'
     lon, lat = S.uniform_dir(rng)
-    return float(round(lon)), float(round(lat)), 'integer_degrees'
+    return float(round(lon)) % 360.0, float(round(lat)), 'integer_degrees'
 
 
 def rand_par(rng, pair, boundary):
@@ -296,15 +301,15 @@ def generate(ctx, shard=0, nshards=1):
                 180.0, -180.0, 90.0, 483.1, 1e6 + 0.5, -1e6 - 0.25, 59.99999, 60.0, 3600.0, 3599.9999, 1296000.0,
                 1295999.99, -61.5, 2306.2181, 12345.678, 2e6, 4.2e9] + hot
         for x in vals + [rng.uniform(-2000, 2000) for _ in range(300)] + [rng.uniform(-2e6, 2e6) for _ in range(300)]:
-            tie(ctx, 'a_reduce', [x], run_impl(lambda: Angle.reduce_deg(x)), 'angle_helpers')
-            tie(ctx, 'a_of_sec', [x], run_impl(lambda: Angle(0, 0, x)()), 'angle_helpers')
-            tie(ctx, 'a_of_rad', [x / 57.0], run_impl(lambda: Angle(x / 57.0, radians=True)()), 'angle_helpers')
+            tie(ctx, 'a_reduce', [x], run_impl(lambda: Angle.reduce_deg(x)), 'angle_helpers', raw=True)
+            tie(ctx, 'a_of_sec', [x], run_impl(lambda: Angle(0, 0, x)()), 'angle_helpers', raw=True)
+            tie(ctx, 'a_of_rad', [x / 57.0], run_impl(lambda: Angle(x / 57.0, radians=True)()), 'angle_helpers', raw=True)
             y = Angle(x)()
-            tie(ctx, 'a_to_positive', [y], run_impl(lambda: Angle(y).to_positive()()), 'angle_helpers')
+            tie(ctx, 'a_to_positive', [y], run_impl(lambda: Angle(y).to_positive()()), 'angle_helpers', raw=True)
             z = Angle(rng.uniform(-360, 360))()
-            tie(ctx, 'a_add', [y, z], run_impl(lambda: (Angle(y) + Angle(z))()), 'angle_helpers')
-            tie(ctx, 'a_sub', [y, z], run_impl(lambda: (Angle(y) - Angle(z))()), 'angle_helpers')
-            tie(ctx, 'a_mul', [y, z], run_impl(lambda: (Angle(y) * z)()), 'angle_helpers')
+            tie(ctx, 'a_add', [y, z], run_impl(lambda: (Angle(y) + Angle(z))()), 'angle_helpers', raw=True)
+            tie(ctx, 'a_sub', [y, z], run_impl(lambda: (Angle(y) - Angle(z))()), 'angle_helpers', raw=True)
+            tie(ctx, 'a_mul', [y, z], run_impl(lambda: (Angle(y) * z)()), 'angle_helpers', raw=True)
         # documented examples (Meeus 13.a, 13.b and the galactic one)
         ctx.sample({'call': 'equatorial2ecliptical(Angle(7,45,18.946,ra=True), Angle(28,1,34.26), Angle(23.4392911))',
                     'expected': '(113.215630, 6.684170)'})
